@@ -25,6 +25,8 @@ structure Entry where
   fields : List (String × ChildSpec)      -- `"fields"` (empty when the key is absent)
   children : Option ChildSpec             -- `"children"`
   subtypes : Option (List TypeRef)        -- `"subtypes"` (present exactly for supertype entries)
+  extra : Bool := false                   -- `"extra": true`
+  root : Bool := false                    -- `"root": true`
   deriving Repr, Inhabited
 
 abbrev NodeTypes := List Entry
@@ -65,7 +67,11 @@ def closure (nt : NodeTypes) : Nat → List TypeRef → Option (List TypeRef)
   | 0, S => if closed nt S then some S else none
   | f + 1, S => if closed nt S then some S else closure nt f (stepSet nt S)
 
-def closureFuel (nt : NodeTypes) : Nat := nt.length + 1
+/-- every type mentioned in some `subtypes` list -/
+def typeUniverse (nt : NodeTypes) : List TypeRef := nt.flatMap (fun e => e.subtypes.getD [])
+
+/-- enough rounds: every round that does not reach a closed set adds a new member of `typeUniverse` -/
+def closureFuel (nt : NodeTypes) : Nat := (typeUniverse nt).length
 
 /-- executable "allowed through supertypes" -/
 def allowed (nt : NodeTypes) (spec : ChildSpec) (t : TypeRef) : Bool :=
@@ -150,6 +156,34 @@ def ntWF (nt : NodeTypes) : Bool :=
     (match e.children with
      | some spec => (closure nt (closureFuel nt) spec.types).isSome
      | none => true))
+
+/-! ## markers -/
+
+/-- JUDGE: the root node's type is marked `"root": true` -/
+def rootMarked (nt : NodeTypes) (vt : VT) : Bool :=
+  nt.any (fun e => decide (e.ty = vt.ty) && e.root)
+
+mutual
+  /-- JUDGE: every node the tree reports as extra has a type marked `"extra": true`;
+  returns the first offending type -/
+  def extraUnmarked (nt : NodeTypes) : VT → Option TypeRef
+    | .node ty ex _ kids =>
+      if ex && !(nt.any (fun e => decide (e.ty = ty) && e.extra)) then some ty else extraUnmarkedL nt kids
+  def extraUnmarkedL (nt : NodeTypes) : List VT → Option TypeRef
+    | [] => none
+    | k :: ks => match extraUnmarked nt k with
+      | some t => some t
+      | none => extraUnmarkedL nt ks
+end
+
+/-- JUDGE: the `subtypes` of a supertype entry are exactly the (kind, named) pairs the runtime's
+supertype map lists for that symbol -/
+def subtypesAgree (nt : NodeTypes) (sup : TypeRef) (runtime : List TypeRef) : Bool :=
+  match nt.find? (fun e => decide (e.ty = sup)) with
+  | some e => match e.subtypes with
+    | some subs => subs.all (fun t => decide (t ∈ runtime)) && runtime.all (fun t => decide (t ∈ subs))
+    | none => false
+  | none => false
 
 /-! ## diagnostics for the driver (not used by theorems) -/
 
